@@ -24,8 +24,12 @@ import (
 // cross-deployment replay, token tampering by the presenting party.
 
 type tokKnobs struct {
-	LifetimeMs int64          `json:"session_lifetime_ms"` // 0: library default
-	Deploys    []mwDeployConf `json:"deployments"`         // [0] is the target; [1] another deployment
+	LifetimeMs int64 `json:"session_lifetime_ms"` // 0: library default
+	// how long the browser is told to keep the cookie: "" as long as the session lives (the cookie provider's MaxAge follows the
+	// codec's); "default" only the codec's lifetime is customised, the provider's stays as shipped; "short"/"long" one minute / a week.
+	// A token is not bound by what the browser was told: the session lifetime is the codec's.
+	CookieLife string         `json:"cookie_lifetime,omitempty"`
+	Deploys    []mwDeployConf `json:"deployments"` // [0] is the target; [1] another deployment
 	SameKey    bool           `json:"other_deployment_shares_key"`
 	OtherDiff  string         `json:"other_deployment_differs_in"` // with a shared key: "both" (its own URL as audience and issuer) | "audience" | "issuer"
 }
@@ -48,6 +52,9 @@ var tokKinds = []string{"valid", "valid", "valid", "tracking", "other-deployment
 
 func genTokens(g *Rng, tier string) *Plan {
 	k := tokKnobs{LifetimeMs: Pick(g, int64(0), 0, 10_000, 300_000, 86_400_000), SameKey: g.Bool(0.5), OtherDiff: Pick(g, "both", "audience", "issuer")}
+	if k.LifetimeMs > 0 {
+		k.CookieLife = Pick(g, "", "", "default", "default", "short", "long")
+	}
 	ec := g.Bool(0.3)
 	k.Deploys = []mwDeployConf{
 		{HTTPS: g.Bool(0.7), Host: "sp0.example.com", EC: ec, KeyIdx: 1, CookieName: Pick(g, "", "", "sess")},
@@ -81,13 +88,13 @@ func genTokens(g *Rng, tier string) *Plan {
 		life = 3_600_000
 	}
 	p := &Plan{Knobs: mustJSON(k)}
-	steps := []tokStep{{Kind: "login", User: g.Intn(11)}}
+	steps := []tokStep{{Kind: "login", User: g.Intn(13)}}
 	nlogins := 1
 	n := 3 + g.Intn(9)
 	for i := 0; i < n; i++ {
 		switch g.PickW(2, 10, 4, 1) {
 		case 0:
-			steps = append(steps, tokStep{Kind: "login", User: g.Intn(11)})
+			steps = append(steps, tokStep{Kind: "login", User: g.Intn(13)})
 			nlogins++
 		case 1:
 			steps = append(steps, tokStep{Kind: "present", Token: Pick(g, tokKinds...), Login: g.Intn(nlogins), Path: Pick(g, "/page", "/page", "/gated/x", "/nested/x")})
@@ -165,7 +172,14 @@ func execTokens(t *testing.T, p *Plan) *Result {
 			codec := samlsp.DefaultSessionCodec(opts)
 			if k.LifetimeMs > 0 {
 				codec.MaxAge = ms(k.LifetimeMs)
-				sp.MaxAge = ms(k.LifetimeMs)
+				switch k.CookieLife {
+				case "":
+					sp.MaxAge = ms(k.LifetimeMs)
+				case "short":
+					sp.MaxAge = time.Minute
+				case "long":
+					sp.MaxAge = 7 * 24 * time.Hour
+				}
 			}
 			if di == 1 && k.SameKey {
 				// a sibling deployment sharing the key pair whose tokens differ from the target's in one claim only
@@ -187,6 +201,16 @@ func execTokens(t *testing.T, p *Plan) *Result {
 	life := ms(k.LifetimeMs)
 	if k.LifetimeMs == 0 {
 		life = time.Hour // the documented default session lifetime of the middleware
+	}
+	cookieLife := life
+	switch {
+	case k.LifetimeMs > 0 && k.CookieLife == "default":
+		cookieLife = time.Hour
+		res.probe("only-the-codec-lifetime-customised")
+	case k.LifetimeMs > 0 && k.CookieLife == "short":
+		cookieLife = time.Minute
+	case k.LifetimeMs > 0 && k.CookieLife == "long":
+		cookieLife = 7 * 24 * time.Hour
 	}
 	users := mwUsers()
 	var logins []*loginRec
@@ -344,6 +368,8 @@ func execTokens(t *testing.T, p *Plan) *Result {
 			expect := "NO_SESSION"
 			if kind == "valid" {
 				switch {
+				case cookieLife < life && age > cookieLife-2*time.Second && age < life-2*time.Second:
+					expect = "DONT_CARE" // the browser would have dropped the cookie already; the token itself is still inside the session lifetime
 				case age >= 2*time.Second && age < life-2*time.Second:
 					expect = "AUTHENTICATED"
 				case age < -2*time.Second || age > life+2*time.Second:
